@@ -69,14 +69,18 @@ var eqKinds = []eqKind{
 		ref:  func(a, b proto.Message) (bool, string) { return refEqual(a, b, nil) },
 	},
 	{
-		name:   "float-margin",
-		opt:    func() resource.Option { return resource.WithMessageEquivalence(cmp.Equal(cmp.FloatValueApprox(0, 0.5))) },
+		name: "float-margin",
+		opt: func() resource.Option {
+			return resource.WithMessageEquivalence(cmp.Equal(cmp.FloatValueApprox(0, 0.5)))
+		},
 		ref:    func(a, b proto.Message) (bool, string) { return refEqual(a, b, &vnode{Op: "float", Mg: 0.5}) },
 		jitter: "float",
 	},
 	{
-		name:   "float-fraction",
-		opt:    func() resource.Option { return resource.WithMessageEquivalence(cmp.Equal(cmp.FloatValueApprox(0.25, 0))) },
+		name: "float-fraction",
+		opt: func() resource.Option {
+			return resource.WithMessageEquivalence(cmp.Equal(cmp.FloatValueApprox(0.25, 0)))
+		},
 		ref:    func(a, b proto.Message) (bool, string) { return refEqual(a, b, &vnode{Op: "float", Fr: 0.25}) },
 		jitter: "float",
 	},
@@ -345,15 +349,19 @@ func readOpts(mask []string, updatesOnly bool) (pull []resource.ReadOption, get 
 
 func streamClause(r *vk.Run) {
 	nv := r.Pick(260, 5000)
+	// the equivalence runs on the goroutine started by Pull: a panic there kills the worker, so the cases are
+	// guarded (the driver reports the death under the guard key and restarts the worker without these cases)
 	for i := 0; i < nv; i++ {
-		if r.Mine(i) {
+		if r.Mine(i) && r.Guard("C16/stream/crash/value", map[string]any{"stream": "stream-value", "case": i}) {
 			streamValueCase(r, i)
+			r.Unguard()
 		}
 	}
 	nc := r.Pick(200, 4000)
 	for i := 0; i < nc; i++ {
-		if r.Mine(i) {
+		if r.Mine(i) && r.Guard("C16/stream/crash/collection", map[string]any{"stream": "stream-collection", "case": i}) {
 			streamCollectionCase(r, i)
+			r.Unguard()
 		}
 	}
 	streamDirected(r)
@@ -393,7 +401,7 @@ func streamDirected(r *vk.Run) {
 						continue
 					}
 					caseNo++
-					if !r.Mine(caseNo) {
+					if !r.Mine(caseNo) || !r.Guard("C16/stream/crash/"+res, map[string]any{"stream": "directed", "case": caseNo}) {
 						continue
 					}
 					var ek *eqKind
@@ -408,6 +416,7 @@ func streamDirected(r *vk.Run) {
 						}
 						return build(script[i], ekName, mask != nil)
 					})
+					r.Unguard()
 				}
 			}
 		}
